@@ -87,7 +87,7 @@ impl TryFrom<BdlBlock> for WallCons {
             .zip(thickness.iter())
             .map(|(name, thickness)| {
                 if name.starts_with("Cámara de aire ") {
-                    match &name[name.len() - 5..] {
+                    match name.get(name.len() - 5..).unwrap_or_default() {
                         " 1 cm" => 0.01,
                         " 2 cm" => 0.02,
                         " 5 cm" => 0.05,
